@@ -52,6 +52,13 @@ pub proof fn lemma_xrun_mono(rel: Rel, st: Xs, s: Seq<Ev>)
     if s.len() > 0 { lemma_xrun_mono(rel, st, s.drop_last()); }
 }
 
+/// a start state as a creator configures it: canonical (no open run, nothing counted yet, cursor at its recorded start),
+/// box representable in usize
+pub open spec fn start_ok0(r0: St) -> bool {
+    wf(r0) && r0.ro == r0.oc && r0.rn == r0.nc && r0.po <= r0.oc && r0.pn <= r0.nc && 0 <= r0.oc && 0 <= r0.nc
+    && r0.oe <= usize::MAX && r0.ne <= usize::MAX && r0.oc == r0.o0 && r0.nc == r0.n0 && r0.eqs == 0 && r0.dels == 0 && r0.inss == 0
+}
+
 /// an exact event at the cursor of a well-formed weak-checker state is accepted and leaves it well formed
 pub proof fn lemma_step_exact(rel: Rel, st: St, e: Ev)
   requires wf(st),
